@@ -206,7 +206,7 @@ def less_common_holdings_leg(ctx, tmp):
             continue
         for vname in editable:
             ds2 = ds.copy(deep=True)
-            vals = numpy.array(ds2[vname].values, copy=True)
+            vals = numpy.array(ds2[vname].values, copy=True, order='C')      # (C order: reshape(-1) is then a view and the edit lands)
             flat = vals.reshape(-1)
             k = next((i for i, x in enumerate(flat) if x == x), 0)
             flat[k] = flat[k] + 1
